@@ -209,6 +209,30 @@ def check(ctx: Ctx) -> list[RuleResult]:
             r3.ok({"dtm_field": alias[nm], "columns": [lo, hi]})
         else:
             r3.fail(f"hex_*_dtm:{alias[nm]}", fd.loc(), f"datetime field '{alias[nm]}' is written at columns {lo}:{hi} but read from {slices.get(alias[nm])}")
+    # dtm: the DST flag must be or-ed into the *seconds* octet, the one the decoder masks with 0b1111111.
+    # Flow-sensitive column tracking of the encoder's string variable: {columns already cut off its front} per program point.
+    r3.instances += 1
+    r3.nontrivial += 1
+    flag_sites = _dst_flag_sites(fe)
+    sec_cols = next(((lo, hi) for nm, lo, hi in order if nm == "sec"), None)
+    dec_mask_ok = any(
+        isinstance(n, ast.BinOp) and isinstance(n.op, ast.BitAnd) and isinstance(n.right, ast.Constant) and n.right.value == 0x7F and "value[:2]" in norm(n.left)
+        for n in own_nodes(fd.node)
+    )
+    if not flag_sites:
+        r3.ok({"dtm_dst_flag": "no flag site in the encoder"})
+    else:
+        bad = [(n, offs, cols) for n, offs, cols in flag_sites if sec_cols is None or any((cols[0] + o, cols[1] + o) != sec_cols for o in offs) or not offs]
+        if bad or not dec_mask_ok:
+            n, offs, cols = (bad[0] if bad else flag_sites[0])
+            r3.fail(
+                "hex_from_dtm:dst-flag-column",
+                fe.loc(n),
+                f"the DST flag (| 0x80) is applied to columns {cols[0]}:{cols[1]} of a string whose first {sorted(offs)} columns may already have been cut off: "
+                f"it must land on the seconds octet (columns {sec_cols}), the only one the decoder masks with 0b1111111" if bad else "the decoder no longer masks the seconds octet with 0b1111111 although the encoder sets the DST flag there",
+            )
+        else:
+            r3.ok({"dtm_dst_flag": f"or-ed into columns {sec_cols} (seconds) on every path; decoder masks 0b1111111"})
     # device ids
     for qn in (f"{A}.hex_id_to_dev_id", f"{A}.Address.convert_from_hex"):
         f = repo.func(qn)
@@ -275,6 +299,73 @@ def check(ctx: Ctx) -> list[RuleResult]:
                         r5.fail(f"{g.short}:{norm(n.value)[:40]}:{spec}", g.loc(n), f"`{{{norm(n.value)[:50]}:{spec}}}` in {g.short} has no range guard: a value that does not fit {width} hex digits is silently widened/wrapped into a different valid wire value")
     out.append(r5)
     return out
+
+
+def _dst_flag_sites(fe: FuncInfo) -> "list[tuple[ast.AST, set[int], tuple[int, int]]]":
+    """[(site, possible front offsets of the string at that point, (lo, hi) columns the flag is or-ed into)]."""
+    sites: list[tuple[ast.AST, set[int], tuple[int, int]]] = []
+
+    def cut_of(value: ast.expr, var: str) -> int | None:
+        """`var[k:]` -> k ; `<anything> + var[k:]` (rebuild keeping the tail) -> 0 ; the variable itself -> 0."""
+        if isinstance(value, ast.Name) and value.id == var:
+            return 0
+        if isinstance(value, ast.Subscript) and isinstance(value.value, ast.Name) and value.value.id == var and isinstance(value.slice, ast.Slice):
+            lo = value.slice.lower
+            if value.slice.upper is None and (lo is None or (isinstance(lo, ast.Constant) and isinstance(lo.value, int) and lo.value >= 0)):
+                return 0 if lo is None else lo.value
+            return None
+        if isinstance(value, ast.BinOp) and isinstance(value.op, ast.Add):
+            # f"{...:02X}" + var[2:]  - a 2-column head replaced in place
+            head, tail = value.left, value.right
+            k = cut_of(tail, var)
+            if k is not None and isinstance(head, ast.JoinedStr):
+                w = 0
+                for part in head.values:
+                    if isinstance(part, ast.FormattedValue) and part.format_spec is not None:
+                        m = re.fullmatch(r"0(\d+)X", norm(part.format_spec).strip("'\"f"))
+                        w += int(m.group(1)) if m else 99
+                    elif isinstance(part, ast.Constant):
+                        w += len(str(part.value))
+                return 0 if w == k else None
+        return None
+
+    def scan_flag(e: ast.AST, var: str, offs: set[int]) -> None:
+        for n in ast.walk(e):
+            if isinstance(n, ast.BinOp) and isinstance(n.op, ast.BitOr) and isinstance(n.right, ast.Constant) and n.right.value == 0x80:
+                for sub in ast.walk(n.left):
+                    if isinstance(sub, ast.Subscript) and isinstance(sub.value, ast.Name) and sub.value.id == var and isinstance(sub.slice, ast.Slice):
+                        lo = 0 if sub.slice.lower is None else getattr(sub.slice.lower, "value", None)
+                        hi = getattr(sub.slice.upper, "value", None)
+                        if isinstance(lo, int) and isinstance(hi, int):
+                            sites.append((n, set(offs), (lo, hi)))
+
+    def run(stmts: list[ast.stmt], var: str | None, offs: set[int]) -> "tuple[str | None, set[int]]":
+        for st in stmts:
+            if isinstance(st, ast.Assign) and len(st.targets) == 1 and isinstance(st.targets[0], ast.Name):
+                tgt = st.targets[0].id
+                if var is None and isinstance(st.value, ast.Call) and norm(st.value.func) == "_dtm_to_hex":
+                    var, offs = tgt, {0}
+                    continue
+                if var is not None and tgt == var:
+                    scan_flag(st.value, var, offs)
+                    k = cut_of(st.value, var)
+                    offs = {o + k for o in offs} if k is not None else set()
+            elif isinstance(st, ast.If) and var is not None:
+                scan_flag(st.test, var, offs)
+                _v1, o1 = run(st.body, var, set(offs))
+                _v2, o2 = run(st.orelse, var, set(offs))
+                offs = o1 | o2
+            elif isinstance(st, ast.If):
+                v1, o1 = run(st.body, var, set(offs))
+                v2, o2 = run(st.orelse, var, set(offs))
+                var = v1 or v2
+                offs = o1 | o2
+            elif var is not None:
+                scan_flag(st, var, offs)
+        return var, offs
+
+    run(list(fe.node.body), None, set())
+    return sites
 
 
 def _bounded(ctx: Ctx, g: FuncInfo, top: FuncInfo, v: ast.expr, width: int) -> str | None:
